@@ -26,6 +26,9 @@ CUSTOM = {
     "c3b": {"type": "custom", "layers": [[0.5, 0.12, 0.26, 0.43, 600.0, 100], [0.4, 0.30, 0.44, 0.50, 4.0, 100], [0.3, 0.06, 0.13, 0.36, 3000.0, 100]]},
     "c3c": {"type": "custom", "layers": [[0.4, 0.20, 0.35, 0.47, 120.0, 100], [0.4, 0.10, 0.22, 0.41, 1200.0, 80], [0.4, 0.32, 0.50, 0.54, 15.0, 100]]},
     "c3d": {"type": "custom", "layers": [[0.6, 0.15, 0.31, 0.46, 300.0, 100], [0.4, 0.39, 0.54, 0.55, 35.0, 100], [0.2, 0.12, 0.26, 0.43, 600.0, 100]]},
+    # hard pans: a layer roots cannot enter (penetrability 0) above the crop's maximum rooting depth -- the profile must still reach Zmax
+    "c2pan": {"type": "custom", "layers": [[0.5, 0.12, 0.26, 0.43, 600.0, 100], [3.5, 0.30, 0.44, 0.50, 4.0, 0]]},
+    "c3pan": {"type": "custom", "layers": [[0.3, 0.10, 0.22, 0.41, 1200.0, 100], [0.2, 0.32, 0.50, 0.54, 2.0, 0], [3.5, 0.15, 0.31, 0.46, 300.0, 100]]},
     "c2t": {"type": "custom", "texture": [[0.7, 30, 30, 2.0, 100], [0.3, 60, 10, 1.0, 100]]},
 }
 from ..refmodels import BUILTIN_LAYERS, layer_thicknesses, reference_layer_map  # noqa: E402
